@@ -291,6 +291,10 @@ func (d *c09) closeGrid() []cell {
 }
 
 func runC09(cfg *common.Config, rec *common.Recorder) {
+	if cfg.Mode == "hold" {
+		runC09Hold(cfg, rec)
+		return
+	}
 	d := &c09{rec: rec, cfg: cfg, yield: false}
 	total := extraInt(cfg.Extra, "total", 0)
 	salt := extraInt(cfg.Extra, "salt", 0) // lets two jobs of one tier use different yield seeds
